@@ -16,9 +16,9 @@ ASSUMPTIONS = unitkit.UNITS_STUB_TEXT + [
     "division by a symbolic value assumes the divisor is non-zero on that path (a-ea, a+ea, b-eb, b+eb, k)",
     "first-order bound for a/b is claimed for 0 < eb < b (relative uncertainty below 100 %)",
     "power: only non-negativity is claimed (the property states nothing else for powers); exponents are concrete",
-    "scalar magnitudes only; array/Decimal magnitudes are outside the symbolic claim",
+    "array magnitudes are 2-element object arrays of proxies (class SymArr overrides astype(float)); np.max over such arrays forks on every comparison",
 ]
-OUTSIDE = ['array and Decimal magnitudes', 'binary64 rounding', 'non-linear (temperature, logarithmic, reciprocal) conversions of uncertainties']
+OUTSIDE = ['arrays longer than 2 elements / multi-dimensional arrays', 'Decimal magnitudes beyond conversion and +/- (real Decimal refuses mixed float arithmetic in the other operators)', 'binary64 rounding', 'non-linear (temperature, logarithmic, reciprocal) conversions of uncertainties']
 BOUNDS = {'quick': {'exponents': '-3..3 and 1/2', 'unit pairs': 8}, 'thorough': {'exponents': '-6..6, 1/2, 3/2', 'unit pairs': 'every linear prefixed pair sample of 60'}}
 
 PRE = "from scinumtools.units import Magnitude, Quantity\n"
@@ -151,6 +151,94 @@ def scenarios(tier, seed):
                 return out
             ''', {'a': 'real', 'ea': 'real'}, ['v.ea >= 0', 'v.a > 0'], consts={'u': u, 'w': w, 'ratio': ratio}, preamble=PRE,
             what=f'linear conversion {u} -> {w} of an uncertain quantity'))
+    for u, w in pairs[:6]:
+        ratio = unitkit.ref_parse(u).value() / unitkit.ref_parse(w).value()
+        S.append(Scenario(f'convert-decimal/{u}->{w}', '''
+            def run(v, O):
+                q = Quantity(O.dec(v.a), v.u, abse=v.ea)
+                q.to(v.w)
+                return [('to:abse scales like the value', O.eq(q.abse(), v.ea * v.ratio, 1e-6)),
+                        ('to:value', O.eq(q.value(), v.a * v.ratio, 1e-6))]
+            ''', {'a': 'real', 'ea': 'real'}, ['v.ea >= 0', 'v.a > 0'], consts={'u': u, 'w': w, 'ratio': ratio}, preamble=PRE,
+            what=f'linear conversion {u} -> {w} of an uncertain Decimal quantity'))
+    S.append(Scenario('addsub/decimal', '''
+        def run(v, O):
+            A = Magnitude(O.dec(v.a), v.ea); B = Magnitude(O.dec(v.b), v.eb)
+            out = []
+            for name, r in (('a+b', A + B), ('a-b', A - B), ('b-a', B - A)):
+                out.append((name + ':err=ea+eb', O.eq(r.error, v.ea + v.eb)))
+            out.append(('a-b:value', O.eq((A - B).value, v.a - v.b)))
+            out.append(('neg', O.eq((-A).error, v.ea)))
+            return out
+        ''', R4, E2, preamble=PRE, what='sum/difference of two uncertain Decimal magnitudes'))
+    A6 = {'a0': 'real', 'a1': 'real', 'ea': 'real', 'b0': 'real', 'b1': 'real', 'eb': 'real'}
+    S.append(Scenario('array/addsub', '''
+        def run(v, O):
+            A = Magnitude(O.arr([v.a0, v.a1]), v.ea); B = Magnitude(O.arr([v.b0, v.b1]), v.eb)
+            out = []
+            for name, r in (('a+b', A + B), ('a-b', A - B), ('b-a', B - A)):
+                for i in (0, 1):
+                    out.append((f'{name}[{i}]:err=ea+eb', O.eq(r.error[i], v.ea + v.eb)))
+            C = Magnitude(O.arr([v.b0, v.b1]))
+            for name, r in (('a+exact', A + C), ('exact-a', C - A), ('a+num', A + v.b0), ('num-a', v.b0 - A)):
+                for i in (0, 1):
+                    out.append((f'{name}[{i}]:err=ea', O.eq(r.error[i], v.ea)))
+            out.append(('exact array ops stay exact', O.is_none((C * C + C / 2 - C).error)))
+            return out
+        ''', A6, E2, preamble=PRE, what='sum/difference of uncertain array magnitudes'))
+    S.append(Scenario('array/scale', '''
+        def run(v, O):
+            A = Magnitude(O.arr([v.a0, v.a1]), v.ea)
+            K = Magnitude(O.arr([v.b0, v.b1]))
+            out = []
+            for name, r, ks in (('a*k', A * v.b0, (v.b0, v.b0)), ('k*a', v.b0 * A, (v.b0, v.b0)), ('a*K', A * K, (v.b0, v.b1)), ('K*a', K * A, (v.b0, v.b1))):
+                for i in (0, 1):
+                    out.append((f'{name}[{i}]:err=|k|ea', O.eq(r.error[i], O.abs(ks[i]) * v.ea)))
+            for name, r, ks in (('a/k', A / v.b0, (v.b0, v.b0)), ('a/K', A / K, (v.b0, v.b1))):
+                for i in (0, 1):
+                    out.append((f'{name}[{i}]:err=ea/|k|', O.eq(r.error[i] * O.abs(ks[i]), v.ea)))
+            n = -A
+            out.append(('neg[0]', O.eq(n.error[0], v.ea)))
+            p = A ** -1
+            out.append(('pow-1[0]:nonneg', O.ge(p.error[0], 0)))
+            out.append(('pow-1[1]:nonneg', O.ge(p.error[1], 0)))
+            return out
+        ''', {'a0': 'real', 'a1': 'real', 'ea': 'real', 'b0': 'real', 'b1': 'real'}, ['v.ea >= 0', 'v.b0 != 0', 'v.b1 != 0', 'v.a0 != 0', 'v.a1 != 0'], preamble=PRE,
+        what='array magnitude times/over exact numbers'))
+    S.append(Scenario('array/mul', '''
+        def run(v, O):
+            A = Magnitude(O.arr([v.a0, v.a1]), v.ea); B = Magnitude(O.arr([v.b0, v.b1]), v.eb)
+            r = A * B
+            a, b = (v.a0, v.a1), (v.b0, v.b1)
+            out = []
+            for i in (0, 1):
+                out.append((f'a*b[{i}]:nonneg', O.ge(r.error[i], 0)))
+                out.append((f'a*b[{i}]:first order', O.ge(r.error[i], a[i] * v.eb + b[i] * v.ea)))
+            return out
+        ''', A6, E2 + ['v.a0 > 0', 'v.a1 > 0', 'v.b0 > 0', 'v.b1 > 0'], preamble=PRE, what='product of uncertain positive arrays'))
+    S.append(Scenario('array/div', '''
+        def run(v, O):
+            A = Magnitude(O.arr([v.a0, v.a1]), v.ea); B = Magnitude(O.arr([v.b0, v.b1]), v.eb)
+            r = A / B
+            a, b = (v.a0, v.a1), (v.b0, v.b1)
+            out = []
+            for i in (0, 1):
+                out.append((f'a/b[{i}]:first order', O.ge(r.error[i] * b[i] * b[i], a[i] * v.eb + b[i] * v.ea)))
+            return out
+        ''', A6, E2 + ['v.a0 > 0', 'v.a1 > 0', 'v.b0 > 0', 'v.b1 > 0', 'v.eb < v.b0', 'v.eb < v.b1'], preamble=PRE, what='quotient of uncertain positive arrays'))
+    for u, w in pairs[:4]:
+        ratio = unitkit.ref_parse(u).value() / unitkit.ref_parse(w).value()
+        S.append(Scenario(f'array/convert/{u}->{w}', '''
+            def run(v, O):
+                q = Quantity(O.arr([v.a0, v.a1]), v.u, abse=v.ea)
+                q.to(v.w)
+                out = []
+                for i, a in enumerate((v.a0, v.a1)):
+                    out.append((f'to[{i}]:abse scales like the value', O.eq(q.abse()[i], v.ea * v.ratio, 1e-6)))
+                    out.append((f'to[{i}]:value', O.eq(q.value()[i], a * v.ratio, 1e-6)))
+                return out
+            ''', {'a0': 'real', 'a1': 'real', 'ea': 'real'}, ['v.ea >= 0'], consts={'u': u, 'w': w, 'ratio': ratio}, preamble=PRE,
+            what=f'linear conversion {u} -> {w} of an uncertain array quantity'))
     # canaries: deliberately wrong oracles must be refuted
     S.append(Scenario('canary/addsub', '''
         def run(v, O):
